@@ -514,7 +514,22 @@ class Symx:
             i0 = self.iterator(args[0], st)
             i1 = self.iterator(args[1], st)
             if i0 and i1 and i0[0] == i1[0]:
-                return Function('ITER_' + ('MIN' if short == 'min_element' else 'MAX'))(Symbol('arr:' + i0[0]), i0[1], i1[1])
+                cont = Symbol('arr:' + i0[0])
+                lo_, hi_ = i0[1], i1[1]
+                io_ = self.iter_container(args[0], st)
+                if io_ is not None and strip(io_[1]).get('k') == 'Index':
+                    # an element of a container of containers (a row): keep the row index as a term, not as text
+                    idx_, b_ = [], io_[1]
+                    while strip(b_).get('k') == 'Index':
+                        b_ = strip(b_)
+                        idx_.insert(0, self.sym(b_['idx'], st))
+                        b_ = b_['base']
+                    bn_ = self.lv_name(b_)
+                    cont = Function('arr:' + bn_, real=True)(*idx_)
+                    ln_ = Symbol('len(%s)' % i0[0], integer=True, nonnegative=True)
+                    if isinstance(hi_, sp.Basic) and hi_.has(ln_):
+                        hi_ = hi_.subs(ln_, Function('len:' + bn_, integer=True)(*idx_))
+                return Function('ITER_' + ('MIN' if short == 'min_element' else 'MAX'))(cont, lo_, hi_)
         if short == 'inner_product' and len(args) == 4:
             i0, i1, j0 = self.iterator(args[0], st), self.iterator(args[1], st), self.iterator(args[2], st)
             if i0 and i1 and j0 and i0[0] == i1[0]:
